@@ -373,6 +373,20 @@ Definition referrers_wrap_prefix (st : rstate) (cb_unsupp : bool) (api : trace)
     end
   end.
 
+(* pingReferrers (used before pushing / deleting a manifest with a subject): the capability
+   is decided by one GET of the referrers endpoint; Some b = answer, None = error *)
+Definition ping (st : rstate) (rs : response) : rstate * option bool :=
+  match st with
+  | RSupported => (st, Some true)
+  | RUnsupported => (st, Some false)
+  | RUnknown =>
+    if rs_status rs =? 200 then
+      if str_eqb (rs_ctype rs) mediaTypeImageIndex then (RSupported, Some true) else (RUnsupported, Some false)
+    else if rs_status rs =? 404 then
+      if rs_name_unknown rs then (RUnknown, None) else (RUnsupported, Some false)
+    else (RUnknown, None)
+  end.
+
 (* ---------- content/oci listTags ---------- *)
 
 Fixpoint sinsert (x : str) (l : list str) : list str :=
